@@ -1,5 +1,409 @@
-/- Model for C09 (core Lean only, no Mathlib). -/
-import OdcGeo.Model.IO
+/-
+Model for C09 — xarray geo-registration (`odc/geo/_xr_interop.py`, `odc/geo/math.py`
+`data_resolution_and_offset` / `affine_from_axis` / `resolution_from_affine`,
+`GeoBox.coordinates`, `GCPGeoBox.gcps`).  Core Lean only.
+
+A geo-registered xarray object is modelled by what the recovery code reads:
+dimension names, the coordinates (1-D numeric axis labels with their `encoding["_transform"]`
+and `attrs["crs"]`, non-numeric index coordinates such as `time`/`band`, the 0-d CRS
+coordinate with its parsed `spatial_ref` / `GeoTransform` / `gcps` attributes, other 0-d
+coordinates), `encoding["grid_mapping"]` of the array and the attribute keys.
+
+xarray itself is a parameter: `isel` acts on every coordinate of the indexed dimension by
+numpy positional indexing (`Spec/PySliceStep`), arithmetic / `astype` keep coordinates
+(with encoding and attrs) but drop the array's own `encoding`, pickling keeps everything.
+That contract is exercised against the real xarray by the harness on every run.
+
+The model follows the code **as repaired on branch fix-C09** (1-pixel fallback of
+pixel-space labels is one pixel; pixel labels are exact; Dataset output assembled
+without `Dataset.map`).
+-/
+import OdcGeo.Model.Affine
+import OdcGeo.Spec.PySliceStep
 namespace OdcGeo.C09
+open OdcGeo
+
+/-- What this property sees of a CRS: an identity and `crs.geographic`. -/
+structure Crs where
+  id : Nat
+  geographic : Bool
+  deriving DecidableEq, Repr
+
+/-- `crs.dimensions` / `GeoBoxBase.dimensions` (geobox.py:151-157, crs.py:188-201) -/
+def dimsOf : Option Crs → String × String
+  | some ⟨_, true⟩ => ("latitude", "longitude")
+  | _ => ("y", "x")
+
+/-- linear `GeoBox` -/
+structure GeoBox where
+  ny : Nat
+  nx : Nat
+  A : Aff
+  crs : Option Crs
+  deriving DecidableEq, Repr
+
+/-- one ground control point: pixel `(col,row)` ↦ world `(x,y)` -/
+structure Gcp where
+  col : Rat
+  row : Rat
+  x : Rat
+  y : Rat
+  deriving DecidableEq, Repr
+
+/-- `GCPGeoBox`: shape, mapping (its point set) and the pixel-side affine -/
+structure GcpBox where
+  ny : Nat
+  nx : Nat
+  pts : List Gcp
+  A : Aff
+  crs : Option Crs
+  deriving DecidableEq, Repr
+
+inductive Src where
+  | lin (g : GeoBox)
+  | gcp (g : GcpBox)
+  deriving DecidableEq, Repr
+
+/-- exact value of the Python double `1e-10` (default `tol` of `is_affine_st`) -/
+def tolST : Rat := 7737125245533627 / 77371252455336267181195264
+
+def rabs (x : Rat) : Rat := if x < 0 then -x else x
+
+/-- `is_affine_st(A)` (math.py:340-349) -/
+def isAffineST (A : Aff) : Bool := rabs A.b < tolST && rabs A.d < tolST
+
+/-- The 0-d CRS coordinate written by `_mk_crs_coord` as far as it is read back:
+`_extract_crs`, `_extract_geo_transform`, `_extract_gcps`. -/
+structure CrsCoord where
+  crs : Option Crs
+  gt : Option Aff
+  gcps : Option (List Gcp)
+  deriving DecidableEq, Repr
+
+inductive Coord where
+  /-- 1-D numeric index coordinate: values, `encoding["_transform"]`, parsed `attrs["crs"]` -/
+  | axis (vals : List Rat) (xform : Option Aff) (crsAttr : Option Crs)
+  /-- non-numeric index coordinate (`time`, `band`) of that length -/
+  | other (len : Nat)
+  /-- 0-d coordinate carrying `spatial_ref` / `crs_wkt` -/
+  | crs (c : CrsCoord)
+  /-- 0-d coordinate left behind by an integer index (no `spatial_ref` attribute) -/
+  | scalar
+  deriving DecidableEq, Repr
+
+structure XArr where
+  dims : List String
+  coords : List (String × Coord)
+  /-- `encoding.get("grid_mapping")` (the `attrs` fallback is folded into the same field) -/
+  gridMapping : Option String
+  attrs : List String
+  deriving DecidableEq, Repr
+
+/-! ### writing: `xr_coords`, `_mk_pixel_coord`, `_coord_to_xr`, `wrap_xr` (161-214, 357-418, 978-1033) -/
+
+/-- `numpy.arange(0.5, sz)` -/
+def pixelLabels (n : Nat) : List Rat := (List.range n).map (fun (k : Nat) => (k : Rat) + 1 / 2)
+
+/-- `numpy.arange(n) * r + (t + r / 2)` (`GeoBox.coordinates`, geobox.py:754-781) -/
+def axisLabels (n : Nat) (r t : Rat) : List Rat :=
+  (List.range n).map (fun (k : Nat) => (k : Rat) * r + (t + r / 2))
+
+/-- `GCPGeoBox.gcps()` (gcp.py:291-309): GCPs in the pixel frame of this box. -/
+def exportGcps (g : GcpBox) : Res (List Gcp) := do
+  let ai ← g.A.inv?
+  return g.pts.map fun p => let q := ai.apply (p.col, p.row); ⟨q.1, q.2, p.x, p.y⟩
+
+/-- `xr_coords(gbox, crs_coord_name)` for `crs_coord_name = some name` -/
+def xrCoords (s : Src) (crsName : String) : Res (List (String × Coord)) :=
+  match s with
+  | .gcp g => do
+    let (yd, xd) := dimsOf g.crs
+    let base := [(yd, Coord.axis (pixelLabels g.ny) none none), (xd, Coord.axis (pixelLabels g.nx) none none)]
+    let pts ← exportGcps g
+    match g.crs with
+    | none => return base
+    | some c => return base ++ [(crsName, .crs ⟨some c, none, some pts⟩)]
+  | .lin g =>
+    let (yd, xd) := dimsOf g.crs
+    let base :=
+      if isAffineST g.A then
+        [(yd, Coord.axis (axisLabels g.ny g.A.e g.A.f) none g.crs),
+         (xd, Coord.axis (axisLabels g.nx g.A.a g.A.c) none g.crs)]
+      else
+        [(yd, Coord.axis (pixelLabels g.ny) (some g.A) none),
+         (xd, Coord.axis (pixelLabels g.nx) (some g.A) none)]
+    match g.crs with
+    | none => .ok base
+    | some c => .ok (base ++ [(crsName, .crs ⟨some c, some g.A, none⟩)])
+
+def srcDims (s : Src) : String × String :=
+  match s with | .lin g => dimsOf g.crs | .gcp g => dimsOf g.crs
+
+/-- `wrap_xr(im, gbox, time=…, crs_coord_name=name, **attrs)`: optional leading `time`
+axis of length `nt`, optional trailing `band` axis of length `nb`. -/
+def wrap (s : Src) (nt nb : Option Nat) (crsName : String) (attrs : List String) : Res XArr := do
+  let cs ← xrCoords s crsName
+  let (yd, xd) := srcDims s
+  let pre := match nt with | none => [] | some _ => ["time"]
+  let post := match nb with | none => [] | some _ => ["band"]
+  let tc := match nt with | none => [] | some n => [("time", Coord.other n)]
+  let bc := match nb with | none => [] | some n => [("band", Coord.other n)]
+  return ⟨pre ++ [yd, xd] ++ post, cs ++ tc ++ bc, some crsName, attrs⟩
+
+/-! ### reading: `spatial_dims`, `_locate_crs_coords`, `_extract_transform`, `_locate_geo_info` -/
+
+/-- the first three branches of `spatial_dims`: a known pair of names is present -/
+def guessDims (dims : List String) : Option (String × String) :=
+  if dims.contains "y" && dims.contains "x" then some ("y", "x")
+  else if dims.contains "latitude" && dims.contains "longitude" then some ("latitude", "longitude")
+  else if dims.contains "lat" && dims.contains "lon" then some ("lat", "lon")
+  else none
+
+/-- `spatial_dims(xx, relaxed=True)` (132-158) -/
+def spatialDims (dims : List String) : Option (String × String) :=
+  match guessDims dims with
+  | some p => some p
+  | none => match dims.reverse with
+    | x :: y :: _ => some (y, x)
+    | _ => none
+
+/-- every 0-d coordinate with a `spatial_ref`/`crs_wkt` attribute, in order -/
+def crsScan (cs : List (String × Coord)) : List CrsCoord :=
+  cs.filterMap fun kc => match kc.2 with | .crs c => some c | _ => none
+
+/-- `_locate_crs_coords` (427-443): through `grid_mapping` if set, else every 0-d coordinate
+with a `spatial_ref`/`crs_wkt` attribute.  (`grid_mapping` naming a coordinate that is not a
+CRS coordinate yields a coordinate without CRS attributes.) -/
+def locateCrsCoords (a : XArr) : List CrsCoord :=
+  match a.gridMapping with
+  | some nm =>
+    match a.coords.lookup nm with
+    | some (.crs c) => [c]
+    | some _ => [⟨none, none, none⟩]
+    | none => []
+  | none => crsScan a.coords
+
+/-- `data_resolution_and_offset(data, fallback_resolution)` (math.py:220-242) -/
+def dataResOff (data : List Rat) (fallback : Option Rat) : Res (Rat × Rat) :=
+  match data with
+  | [] => .error .valueError
+  | [v] =>
+    match fallback with
+    | none => .error .valueError
+    | some r => .ok (r, v - (1 / 2) * r)
+  | v0 :: v1 :: rest =>
+    let last := (v1 :: rest).getLast (by simp)
+    let res := (last - v0) / (((rest.length + 2 : Nat) : Rat) - 1)
+    .ok (res, v0 - (1 / 2) * res)
+
+/-- `affine_from_axis(xx, yy, fallback_resolution)` (math.py:245-292) -/
+def affineFromAxis (xx yy : List Rat) (fallback : Option (Rat × Rat)) : Res Aff := do
+  let (xres, xoff) ← dataResOff xx (fallback.map (·.1))
+  let (yres, yoff) ← dataResOff yy (fallback.map (·.2))
+  return Aff.translation xoff yoff * Aff.scale xres yres
+
+/-- `resolution_from_affine(A)` (math.py:494-505) as `(rx, ry)`.  The rotated branch needs a
+square root (`decompose_rws`); it is unreachable from arrays written by `wrap` (theorems
+`roundtrip_*`, `survives`) and reported as `NotImplemented` here. -/
+def resolutionFromAffine (A : Aff) : Res (Rat × Rat) :=
+  if isAffineST A then .ok (A.a, A.e) else .error .notImplemented
+
+/-- the fallback resolution of `_extract_transform` for single-element axes (as repaired):
+one pixel for pixel-space labels (GCP source or `_transform` present), else the resolution of
+the `GeoTransform` of the CRS coordinate, else nothing. -/
+def fallbackRes (p2w : Option Aff) (cc : Option CrsCoord) (gcp : Bool) : Res (Option (Rat × Rat)) :=
+  if gcp || p2w.isSome then .ok (some (1, 1))
+  else match cc with
+    | none => .ok none
+    | some c => match c.gt with
+      | none => .ok none
+      | some g => (resolutionFromAffine g).map some
+
+def composeP2W (p2w : Option Aff) (t : Aff) : Aff := match p2w with | some p => p * t | none => t
+
+/-- `_extract_transform(src, sdims, crs_coord, gcp)` (486-525) for the case that both spatial
+dimensions have numeric coordinates; `none` = no transform. -/
+def extractTransform (xs ys : List Rat) (xform : Option Aff) (cc : Option CrsCoord) (gcp : Bool) :
+    Res (Option Aff) :=
+  let p2w := if gcp then none else xform
+  match affineFromAxis xs ys none with
+  | .ok t => .ok (some (composeP2W p2w t))
+  | .error _ =>
+    match fallbackRes p2w cc gcp with
+    | .error e => .error e
+    | .ok none => .ok none
+    | .ok (some r) =>
+      match affineFromAxis xs ys (some r) with
+      | .ok t => .ok (some (composeP2W p2w t))
+      | .error _ => .ok none
+
+inductive Recovered where
+  | nothing
+  | lin (g : GeoBox)
+  | gcp (g : GcpBox)
+  deriving DecidableEq, Repr
+
+def firstSome {α} (a b : Option α) : Option α := match a with | some x => some x | none => b
+
+/-- `_locate_geo_info(src).geobox` (528-567).  Spatial dimensions without a coordinate raise
+`KeyError` in the code and non-numeric ones `TypeError` (both outside the property; reported
+as `RuntimeError` here and not exercised). -/
+def recover (a : XArr) : Res Recovered :=
+  match spatialDims a.dims with
+  | none => .ok .nothing
+  | some (yd, xd) =>
+    match a.coords.lookup yd, a.coords.lookup xd with
+    | some (.axis ys _ ycrs), some (.axis xs xf xcrs) =>
+      let ccs := locateCrsCoords a
+      let cc := ccs.head?
+      let crs := match cc with
+        | some c => c.crs
+        | none => firstSome ycrs xcrs
+      let gcp := cc.bind (·.gcps)
+      match extractTransform xs ys xf cc gcp.isSome with
+      | .error e => .error e
+      | .ok t =>
+        match gcp with
+        | some pts => .ok (.gcp ⟨ys.length, xs.length, pts, t.getD Aff.id, crs⟩)
+        | none =>
+          match t with
+          | some t => .ok (.lin ⟨ys.length, xs.length, t, crs⟩)
+          | none => .ok .nothing
+    | _, _ => .error .runtimeError
+
+/-! ### operations (assumed xarray contract) -/
+
+inductive Idx where
+  | slc (start stop : Option Int) (step : Option Int)
+  | int (i : Int)
+  deriving DecidableEq, Repr
+
+inductive Op where
+  | isel (dim : String) (ix : Idx)
+  | arith
+  | astype
+  | pickle
+  deriving DecidableEq, Repr
+
+/-- numpy positional selection on a label vector -/
+def pick (vals : List Rat) (start stop : Option Int) (step : Int) : List Rat :=
+  (PySliceStep.sel vals.length start stop step).filterMap fun i => vals[i.toNat]?
+
+def coordLen : Coord → Nat
+  | .axis v _ _ => v.length
+  | .other n => n
+  | _ => 0
+
+def iselCoord (c : Coord) (start stop : Option Int) (step : Int) : Coord :=
+  match c with
+  | .axis v xf ca => .axis (pick v start stop step) xf ca
+  | .other n => .other (PySliceStep.indices n start stop step).2
+  | c => c
+
+def mapCoord (nm : String) (f : Coord → Coord) : List (String × Coord) → List (String × Coord)
+  | [] => []
+  | (k, c) :: rest => (if k = nm then (k, f c) else (k, c)) :: mapCoord nm f rest
+
+def applyOp (a : XArr) : Op → Res XArr
+  | .arith => .ok { a with gridMapping := none }
+  | .astype => .ok { a with gridMapping := none }
+  | .pickle => .ok a
+  | .isel dim ix =>
+    if !a.dims.contains dim then .error .valueError
+    else match a.coords.lookup dim with
+      | none => .error .runtimeError
+      | some c =>
+        match ix with
+        | .slc start stop step =>
+          let st := step.getD 1
+          if st = 0 then .error .valueError
+          else .ok { a with coords := mapCoord dim (iselCoord · start stop st) a.coords }
+        | .int i =>
+          match PySliceStep.intIndex (coordLen c) i with
+          | none => .error .indexError
+          | some _ =>
+            .ok { a with dims := a.dims.filter (· ≠ dim), coords := mapCoord dim (fun _ => .scalar) a.coords }
+
+def applyOps (a : XArr) : List Op → Res XArr
+  | [] => .ok a
+  | op :: ops => match applyOp a op with
+    | .error e => .error e
+    | .ok a' => applyOps a' ops
+
+/-! ### reprojection output assembly: `_xr_reproject_da` (780-805), `_xr_reproject_ds` (676-711) -/
+
+def spatialAttributes : List String := ["crs", "crs_wkt", "grid_mapping", "gcps", "epsg"]
+
+/-- which coordinate names are attached to which dimension: index coordinates are named after
+their dimension; 0-d coordinates reference no dimension. -/
+def shouldKeep (sdims : String × String) : String × Coord → Bool
+  | (_, .crs _) => false
+  | (k, .axis _ _ _) => k ≠ sdims.1 && k ≠ sdims.2
+  | (k, .other _) => k ≠ sdims.1 && k ≠ sdims.2
+  | (_, .scalar) => true
+
+/-- replace the two adjacent spatial dims by the destination ones -/
+def replaceDims (dims : List String) (sd : String × String) (dd : String × String) : List String :=
+  match dims with
+  | [] => []
+  | d :: rest => if d = sd.1 then dd.1 :: dd.2 :: rest.drop 1 else d :: replaceDims rest sd dd
+
+/-- coords / dims / attrs / encoding of the DataArray built at the end of `_xr_reproject_da`
+(`dstNodata`: whether a `dst_nodata=` argument was given).  `assert ydim + 1 == xdim`. -/
+def assemble (src : XArr) (dst : GeoBox) (dstNodata : Bool) : Res XArr :=
+  -- `dst_nodata` defaults to the source `nodata` / `_FillValue` attribute
+  let hasNodata := dstNodata || src.attrs.contains "nodata" || src.attrs.contains "_FillValue"
+  match spatialDims src.dims with
+  | none => .error .valueError
+  | some sd =>
+    match src.dims.idxOf? sd.1, src.dims.idxOf? sd.2 with
+    | some yi, some xi =>
+      if yi + 1 ≠ xi then .error .assertion
+      else
+        let attrs0 := src.attrs.filter (fun k => !spatialAttributes.contains k)
+        let attrs := if hasNodata then (attrs0.filter (· ≠ "nodata")) ++ ["nodata"]
+                     else attrs0.filter (fun k => k ≠ "nodata" && k ≠ "_FillValue")
+        let kept := src.coords.filter (shouldKeep sd)
+        match xrCoords (.lin dst) "spatial_ref" with
+        | .error e => .error e
+        | .ok cs =>
+          let names := cs.map (·.1)
+          -- `coords.update(...)`: new entries replace same-named old ones
+          let kept := kept.filter (fun kc => !names.contains kc.1)
+          .ok ⟨replaceDims src.dims sd (dimsOf dst.crs), kept ++ cs, some "spatial_ref", attrs⟩
+    | _, _ => .error .valueError
+
+/-- `_xr_reproject_ds` as repaired: every data variable with a geobox is reprojected, the
+others pass through with their CRS coordinates stripped; Dataset attrs are pruned.
+Variables are `(name, array)`; the Dataset itself is `(attrs, variables)`. -/
+def assembleDs (attrs : List String) (vars : List (String × XArr)) (dst : GeoBox) :
+    Res (List String × List (String × XArr)) := do
+  let out ← vars.mapM fun (nm, v) =>
+    match recover v with
+    | .error e => Except.error e
+    | .ok .nothing =>
+      -- pass-through: drop located CRS coordinates
+      let strip := match v.gridMapping with
+        | some g => [g]
+        | none => v.coords.filterMap fun (kc : String × Coord) => match kc with | (k, Coord.crs _) => some k | _ => none
+      Except.ok (nm, { v with coords := v.coords.filter (fun kc => !strip.contains kc.1) })
+    | .ok _ => (assemble v dst false).map (fun o => (nm, o))
+  return (attrs.filter (fun k => !spatialAttributes.contains k), out)
+
+/-- The Dataset seen as one object by `_locate_geo_info(ds)`: all dimensions and the merged
+coordinates of its variables (first occurrence of a name wins – the reprojected variables carry
+identical coordinates), no `grid_mapping` of its own (pruned from the Dataset attrs). -/
+def dsView (attrs : List String) (vars : List (String × XArr)) : XArr :=
+  let dims := (vars.flatMap (·.2.dims)).eraseDups
+  let coords := (vars.flatMap (·.2.coords)).foldl
+    (fun acc kc => if (acc.map (·.1)).contains kc.1 then acc else acc ++ [kc]) []
+  ⟨dims, coords, none, attrs⟩
+
+/-! ### pixel → world -/
+
+def GeoBox.pix2wld (g : GeoBox) (p : Rat × Rat) : Rat × Rat := g.A.apply p
+
+/-- centre of pixel `(row i, column j)` in pixel coordinates `(x, y)` -/
+def centre (i j : Int) : Rat × Rat := ((j : Rat) + 1 / 2, (i : Rat) + 1 / 2)
 
 end OdcGeo.C09
